@@ -23,6 +23,12 @@ func rulesC17(c *Ctx) {
 		c.Bad("anchor", "varutil.ReadArguments", 0, "anchor not found; cannot certify")
 		return
 	}
+	api := f
+	// the tokeniser itself may be a private worker the exported function only forwards to
+	if w := workerOf(f); w != f {
+		c.Note("varutil.ReadArguments forwards to %s", fname(w))
+		f = w
+	}
 	facts := factsFor(f)
 	abs := AbsExplore(f)
 	c.Stats["abs_tracked_phis"] = len(abs.Phis)
@@ -125,6 +131,10 @@ func rulesC17(c *Ctx) {
 						one = true
 					}
 				}
+				if !one {
+					// the buffer is handed in by the callers: every one of them passes a one-byte buffer
+					one = oneByteBuf(c.P, buf, 0)
+				}
 				c.Check(one, "R3", fmt.Sprintf("Read #%d on the input", n3), x.Pos(), "buffer of constant length 1", "the input is read with a buffer longer than one byte — bytes after the command's newline are swallowed and the next call misses the start of the next command")
 				continue
 			}
@@ -148,7 +158,7 @@ func rulesC17(c *Ctx) {
 	}
 	c.Check(okUse, "R3", "the input reader is only Read from", f.Pos(), "no wrapper (bufio, ReadAll, ...)", "the reader is handed to something else that may read ahead")
 	c.Floor("R3", n3, 2)
-	ruleSplitterCallers(c, f)
+	ruleSplitterCallers(c, api)
 
 	// ---- R4 every cycle consumes input -------------------------------------------------------------
 	{
@@ -822,4 +832,79 @@ func privateHelpersOf(f *ssa.Function) []*ssa.Function {
 		}
 	}
 	return out
+}
+
+// oneByteBuf: v is a byte slice of constant length 1: made so, or a parameter that every
+// caller in the module fills with one, or a field that is only ever assigned one.
+func oneByteBuf(p *Prog, v ssa.Value, depth int) bool {
+	if depth > 3 {
+		return false
+	}
+	v = resolve(v)
+	switch x := v.(type) {
+	case *ssa.MakeSlice:
+		k, ok := constInt(x.Len)
+		return ok && k == 1
+	case *ssa.Slice:
+		if a, ok := x.X.(*ssa.Alloc); ok && x.Low == nil {
+			if x.High != nil {
+				if k, isK := constInt(x.High); !isK || k != 1 {
+					return false
+				}
+			}
+			return constMakeLen(a) == 1
+		}
+		return false
+	case *ssa.Parameter:
+		g := x.Parent()
+		idx := -1
+		for i, pp := range g.Params {
+			if pp == x {
+				idx = i
+			}
+		}
+		if idx < 0 || (g.Object() != nil && g.Object().Exported()) {
+			return false
+		}
+		n := 0
+		for _, h := range p.AllModuleFuncs() {
+			for _, ci := range Calls(h) {
+				if ci.Static != g {
+					continue
+				}
+				n++
+				if idx >= len(ci.Common.Args) || !oneByteBuf(p, ci.Common.Args[idx], depth+1) {
+					return false
+				}
+			}
+		}
+		return n > 0
+	case *ssa.UnOp:
+		if x.Op != token.MUL {
+			return false
+		}
+		fa, ok := x.X.(*ssa.FieldAddr)
+		if !ok {
+			return false
+		}
+		fld := fieldName(fa)
+		n := 0
+		okAll := true
+		for _, h := range p.AllModuleFuncs() {
+			eachInstr(h, func(_ *ssa.BasicBlock, _ int, in ssa.Instruction) {
+				st, isSt := in.(*ssa.Store)
+				if !isSt {
+					return
+				}
+				if fa2, isFA := st.Addr.(*ssa.FieldAddr); isFA && fieldName(fa2) == fld {
+					n++
+					if !oneByteBuf(p, st.Val, depth+1) {
+						okAll = false
+					}
+				}
+			})
+		}
+		return n > 0 && okAll
+	}
+	return false
 }
